@@ -114,7 +114,7 @@ PROPS = {
         model_limits='the EVM object cache / journal are volatile cells of the generic model; their rollback on failure is covered by C16/C17 and by the dropfailed twin (fork family)'),
     'C07': dict(
         lean_modules=['OLP.Props.C07', 'OLP.Props.C07Facts'], namespaces=['OLP.Props.C07'],
-        required_theorems=['checkTx_keeps_store', 'checktx_isolation', 'unaimed_hook_breaks_isolation', 'check_vset_breaks_isolation', 'begin_hooks_aimed', 'end_hooks_aimed', 'checker_discipline', 'check_path_runs_no_finalisation'],
+        required_theorems=['checkTx_keeps_store', 'checktx_isolation', 'unaimed_hook_breaks_isolation', 'check_vset_breaks_isolation', 'begin_hooks_aimed', 'end_hooks_aimed', 'checker_discipline', 'check_path_runs_no_finalisation', 'check_path_statedb_uses'],
         run=run_c07, replay=replay_olh('inject'), level='proof', assumptions=SHELL_ASSUME,
         model_limits='premise CheckNoVset is discharged statically only for the classified volatile setters (option copies); other in-memory fields of the singleton stores (validator queue, EVM caches) are covered by the inject twin'),
     'C08': dict(
